@@ -492,15 +492,16 @@ def check_C05(ck):
         res = ck.run(cases)
         for c, (impl, _), want in zip(cases, res, exp):
             ck.expect(impl == want, "zcash:" + c[0].split("/")[0], c[1], impl, want, "byte-for-byte ZCash format / round trip")
-        # reverse direction: every accepted string re-encodes to itself
+        # reverse direction: whatever the IMPLEMENTATION accepts must re-encode to exactly the same bytes
+        cl = _enc_classes(g, rng, False)
+        dcs = [("accepts?/" + c, "%s %s %s" % (tag, "dec_c" if comp else "dec_u", bs.hex())) for (c, bs, comp) in cl]
         acc = []
-        for (c, bs, comp) in _enc_classes(g, rng, False):
-            r = O.decode(C, None, bs, comp, True)
-            if r[0] == "ok":
-                acc.append((bs, comp, r[1]))
-        c2 = [("re-encode", "%s %s %s" % (tag, "enc_c" if comp else "enc_u", g.A(P))) for (bs, comp, P) in acc]
-        for (bs, comp, P), c, (impl, _) in zip(acc, c2, ck.run(c2)):
-            ck.expect(impl == bs.hex(), "canonical", c[1], impl, bs.hex(), "decode(bs)=P => encode(P)=bs")
+        for (c, bs, comp), d, (impl, _) in zip(cl, dcs, ck.run(dcs)):
+            if not impl.startswith("ERR") and impl not in ("PANIC", "BAD-CASE"):
+                acc.append((bs, comp, impl))
+        c2 = [("re-encode", "%s %s %s" % (tag, "enc_c" if comp else "enc_u", pt)) for (bs, comp, pt) in acc]
+        for (bs, comp, pt), c, (impl, _) in zip(acc, c2, ck.run(c2)):
+            ck.expect(impl == bs.hex(), "canonical", "%s decodes to %s" % (bs.hex()[:40] + "...", pt[:40]), impl[:80], bs.hex()[:80], "decode(bs)=P => encode(P)=bs (only accepted preimage)")
 
 
 def check_C19(ck):
